@@ -171,6 +171,17 @@ PROPS["C14"] = dict(_QUERY_COMMON,
          "data partitioned over 2 and 3 FROM graphs, two random permutations of the clauses (when none is OPTIONAL); and the result over a superset of the data contains the result "
          "(no OPTIONAL / aggregate). evaluations = executed variants; non-trivial: non-empty base result; distinct = distinct (query, data)")
 
+PROPS["C04"] = dict(_QUERY_COMMON,
+    components_stub=["simulated storage driver, fault-free, around ONE real memory store shared by the statements of a case", "seeded scheduler in a synctest bubble (one bubble per statement)",
+                     "reference model: map name -> (set of structural triple keys, multiset of blank-node stars) + the reference evaluator for WHERE patterns"],
+    rule="sequences of 3-12 statements over 2-4 graphs: INSERT / DELETE into several graphs (duplicates, absent triples, missing graphs), CREATE / DROP (several names, existing / missing), "
+         "CONSTRUCT / DECONSTRUCT with constants, bindings, anchor bindings, ';' reification, several template triples, several INTO / FROM graphs, target = source, missing graphs, "
+         "SELECT / SHOW and syntactically broken statements interleaved; each statement is a simulated client over the simulated driver (update() per target graph and the bulk writer of "
+         "CONSTRUCT are scheduled by the seed, bulkSize 1-10). After EVERY statement the full listing of EVERY graph is compared with the model: plain triples as a set, blank nodes "
+         "structurally (one star of predicate->object pairs per blank node, as a multiset; a blank node shared by two rows or used as an object is a mismatch). Failed statements must leave "
+         "non-target graphs (and, when rejected before execution, all graphs) unchanged. Statements whose WHERE answer is left open are executed, checked for collateral changes, and the "
+         "model is re-synchronised. Non-trivial: at least one statement changed the store; distinct = distinct (statement kinds and outcomes, data)")
+
 # ---------------------------------------------------------------------------
 # Texts for MANIFEST.json (level claimed, trusted base, technique)
 MANIFEST_TEXT = {}
@@ -226,3 +237,7 @@ MANIFEST_TEXT["C14"] = dict(
     text="purely metamorphic: the same query meaning executed under different schedules, knobs, renamings, clause orders, data partitions and data supersets must give the same (or a containing) result",
     note="trusted base: x/sim, simulated driver, canonical row rendering; no reference model involved",
     technique="deterministic simulation of the real planner over a simulated driver; metamorphic comparison of variants each run under its own seeded schedule, configuration and map-iteration seed")
+MANIFEST_TEXT["C04"] = dict(
+    text="seeded exploration of statement histories against a reference model of the whole store, compared in full after every statement, with the engine's writer concurrency scheduled by the seed",
+    note="trusted base: the store model and template instantiation in x/harness/stmts.go, the reference evaluator, x/sim, simulated driver",
+    technique="deterministic simulation: statement histories as simulated clients over a simulated driver around one real store, step-by-step refinement against a reference model incl. structural blank-node comparison")
